@@ -142,6 +142,13 @@ def execute(mat, ctx):
                 a = (len(t) * 3 + ord(t[1])) % (len(t) - 6)
                 spec["features"].append({"type": "misc_feature", "parts": [[a, a + 4, [1, -1][h]]], "fuzzy": [["w", "o"] if h else ["t", "a"]],
                                          "quals": {"note": ["uncertain ends"]}})
+            hr = (len(t) * 5 + ord(t[3 % len(t)])) % 4
+            if hr == 0:
+                # a documented part: a reference list and a feature citing one or several of its entries (the last one included)
+                k = 1 + (len(t) + ord(t[-1])) % 3
+                spec["refs"] = [dict(_embedded._ref((len(t) + j) % _embedded.REF_POOL), span=True) for j in range(k)]
+                cits = [["[%d]" % k], ["[1]"], ["[1]", "[%d]" % k]][(len(t) + ord(t[0])) % 3]
+                spec["features"].append({"type": "misc_feature", "parts": [[0, 1, 1]], "quals": {"note": ["documented"], "citation": cits}})
             return gen.make_record(spec)
         del _alive[:]
         classes = [M] * (len(texts) - 1)
